@@ -4,7 +4,7 @@ import Gimli.Props.C12Line
 `Model/ConvLineRows.lean`) — the converter's rows are the reader's rows up to the offset of the
 last accepted `DW_LNE_set_address` — and its composition with the writer (C13). -/
 namespace Gimli.ConvLineRows
-open Gimli Gimli.Line Gimli.WLine
+open Gimli Gimli.Line Gimli.WLine Gimli.Props.C13
 
 /-- the reader's row for the converter's sequence-relative row `r` when the last accepted
 `DW_LNE_set_address` was `b` -/
@@ -510,4 +510,396 @@ theorem readRowLoop_sim (strs : Strs) (h : Params) (hm : h.maxOps = 1) :
                 refine ⟨R', ?_, by rw [hend]; exact he', ⟨hnt', hRr, hop', hones'⟩, htame', hline, by omega, hc,
                   ⟨rfl, rfl, rfl, rfl, rfl, [], by simp⟩, hp, fun hn => ⟨hn, by first | rfl | trivial⟩⟩
                 rw [htr, hend, he']; rfl
+
+theorem RowRel_reset (h : Params) (st : CSt) (R : Row) (hr : RowRel h st R) :
+    RowRel h { st with fromAddress := if st.fromRow.endSequence then 0 else st.fromAddress,
+                       fromRow := reset h st.fromRow } (reset h R) := by
+  obtain ⟨hnt, hR, hop, hones⟩ := hr
+  have hend : R.endSequence = st.fromRow.endSequence := by rw [hR]; rfl
+  by_cases he : st.fromRow.endSequence = true
+  · have e1 : reset h R = Row.new h := by unfold reset; rw [hend, he]; rfl
+    have e2 : reset h st.fromRow = Row.new h := by unfold reset; rw [he]; rfl
+    rw [e1, e2]
+    simp only [he, ↓reduceIte]
+    exact ⟨rfl, by simp [shift, Row.new], rfl, by simp [Row.new]⟩
+  · have he' : st.fromRow.endSequence = false := by simpa using he
+    have hendR : R.endSequence = false := by rw [hend, he']
+    refine ⟨?_, ?_, ?_, ?_⟩
+    · simp [reset, he', hnt]
+    · rw [hR]; simp [reset, shift, he']
+    · simp [reset, he', hop]
+    · simp [reset, hendR]; exact hones
+
+/-- what a caller compares between the source rows and the rows read back: every register of a
+row; of an `end_sequence` row — which only says where the sequence ends — its address -/
+inductive Obs where
+  | row (r : Row)
+  | endAt (address : Nat)
+  | other
+  deriving DecidableEq
+
+/-- a source row, its file register mapped through the index mapping `fm` -/
+def obsIn (fm : Nat → Nat) : Ev → Obs
+  | .row r => if r.endSequence then .endAt r.address else .row { r with file := fm r.file }
+  | _ => .other
+
+/-- a row read back from the converted program -/
+def obsOut : Ev → Obs
+  | .row r => if r.endSequence then .endAt r.address else .row r
+  | _ => .other
+
+/-- the converted row, read back at base `fa`, is the source row with the file mapped -/
+theorem rowOf_convertRow (h : Params) (st : CSt) (R : Row) (w : WRow) (hr : RowRel h st R)
+    (hend : R.endSequence = false) (hc : convertRow st = .ok w) :
+    rowOf st.prog.enc.version st.fromAddress w =
+      { R with file := fileRaw st.prog.enc.version (st.files.getD R.file 0) } ∧
+    w.addressOffset = st.fromRow.address ∧ w.opIndex = 0 ∧ w.line = R.line ∧
+    st.fromRow.address % st.prog.enc.minInstLen = 0 ∧ R.file < st.files.length := by
+  obtain ⟨hnt, hR, hop, _⟩ := hr
+  unfold convertRow at hc
+  dsimp only at hc
+  split at hc
+  · cases hc
+  · split at hc
+    · cases hc
+    · split at hc
+      · cases hc
+      · rename_i h1 h2 h3
+        simp only [CRes.ok.injEq] at hc
+        subst hc
+        have hend' : st.fromRow.endSequence = false := by rw [hR] at hend; exact hend
+        refine ⟨?_, rfl, hop, by rw [hR]; rfl, by omega, by rw [hR]; show st.fromRow.file < _; omega⟩
+        rw [hR]
+        simp [rowOf, shift, hnt, hend', Nat.add_comm]
+
+/-- the previous row the writer compares with, after an optional `set_address` -/
+def prevAfter (p' : Option Nat) (prev : WRow) : WRow :=
+  match p' with
+  | some _ => { prev with addressOffset := 0, opIndex := 0 }
+  | none => prev
+
+/-- the pending `set_address` (if any) is the new base, not below the writer's previous row and
+not a tombstone; without one the base is unchanged -/
+def PendOk (p' : Option Nat) (base wbase prevOff mt : Nat) : Prop :=
+  match p' with
+  | some a => a = base ∧ wbase + prevOff ≤ a ∧ a < mt
+  | none => base = wbase
+
+/-- the driver's step for a row event, read back -/
+theorem applyEv_row_sim (m : Mode) (en : Endian) (format : Format) (addrSize : Nat) (st' : CSt)
+    (p' : Option Nat) (w : WRow) (wbase base : Nat)
+    (henc : EncOk st'.prog.enc) (hasz : addrSize = 1 ∨ addrSize = 2 ∨ addrSize = 4 ∨ addrSize = 8)
+    (hcl : st'.prog.prevRow.cleared = st'.prog.prevRow)
+    (hp : PendOk p' base wbase st'.prog.prevRow.addressOffset (minTombstone addrSize))
+    (hstep : StepOk st'.prog.enc addrSize base (prevAfter p' st'.prog.prevRow) w) :
+    ∃ is1, applyEv m st' (.row p' w) =
+        .ok { st' with prog := { st'.prog with inSequence := true, instrs := st'.prog.instrs ++ is1,
+                                               prevRow := w.cleared, row := w.cleared } } ∧
+      ∀ (inSeq : Bool) (rest : List Instr),
+        traceInstrs (readerParams en format addrSize st'.prog.enc)
+            (rowOf st'.prog.enc.version wbase st'.prog.prevRow) inSeq
+            (is1.map (WInstr.toInstr st'.prog.enc.version) ++ rest) =
+          Ev.row (rowOf st'.prog.enc.version base w) ::
+            traceInstrs (readerParams en format addrSize st'.prog.enc)
+              (rowOf st'.prog.enc.version base w.cleared) true rest := by
+  cases p' with
+  | none =>
+    simp only [PendOk] at hp
+    subst hp
+    obtain ⟨is1, hg, htr⟩ := generate_row_correct m en format addrSize st'.prog.enc base st'.prog.prevRow w
+      henc hasz hcl hstep
+    refine ⟨is1, ?_, htr⟩
+    simp only [applyEv, Prog.generateRow, hg, ofWrite, Out.bind_ok, Out.pure_eq, CRes.bind_ok, CRes.pure_eq]
+  | some a =>
+    obtain ⟨ha, hlo, hlt⟩ := hp
+    subst ha
+    have hcl' : (prevAfter (some a) st'.prog.prevRow).cleared = prevAfter (some a) st'.prog.prevRow := by
+      simp only [prevAfter]
+      rw [← hcl]; rfl
+    obtain ⟨is1, hg, htr⟩ := generate_row_correct m en format addrSize st'.prog.enc a
+      (prevAfter (some a) st'.prog.prevRow) w henc hasz hcl' hstep
+    refine ⟨WInstr.setAddress (some a) :: is1, ?_, ?_⟩
+    · simp only [applyEv, Prog.generateRow, Prog.setAddress, prevAfter] at hg ⊢
+      simp only [hg, ofWrite, Out.bind_ok, Out.pure_eq, CRes.bind_ok, CRes.pure_eq, List.append_assoc,
+        List.cons_append, List.nil_append]
+    · intro inSeq rest
+      obtain ⟨_, _, _, _, hs⟩ := set_address_correct en format addrSize st'.prog wbase a inSeq
+        (is1.map (WInstr.toInstr st'.prog.enc.version) ++ rest) hlo hlt
+      simp only [List.map_cons, List.cons_append]
+      rw [hs]
+      exact htr inSeq rest
+
+/-- the driver's step for the end of a sequence, read back -/
+theorem applyEv_end_sim (m : Mode) (en : Endian) (format : Format) (addrSize : Nat) (st' : CSt)
+    (p' : Option Nat) (off : Nat) (wbase base : Nat)
+    (henc : EncOk st'.prog.enc) (hasz : addrSize = 1 ∨ addrSize = 2 ∨ addrSize = 4 ∨ addrSize = 8)
+    (hp : PendOk p' base wbase st'.prog.prevRow.addressOffset (minTombstone addrSize))
+    (hend : EndOk st'.prog.enc addrSize base (prevAfter p' st'.prog.prevRow) st'.prog.row off) :
+    ∃ is1, applyEv m st' (.endSeq p' off) =
+        .ok { st' with prog := { st'.prog with inSequence := false, instrs := st'.prog.instrs ++ is1,
+                                               prevRow := WRow.initial st'.prog.enc,
+                                               row := WRow.initial st'.prog.enc } } ∧
+      ∀ (inSeq : Bool) (rest : List Instr),
+        traceInstrs (readerParams en format addrSize st'.prog.enc)
+            (rowOf st'.prog.enc.version wbase st'.prog.prevRow) inSeq
+            (is1.map (WInstr.toInstr st'.prog.enc.version) ++ rest) =
+          Ev.row { rowOf st'.prog.enc.version base (prevAfter p' st'.prog.prevRow) with
+                     address := base + off, opIndex := st'.prog.row.opIndex, endSequence := true } ::
+            traceInstrs (readerParams en format addrSize st'.prog.enc)
+              (Row.new (readerParams en format addrSize st'.prog.enc)) false rest := by
+  obtain ⟨_, _, _, _, hmin, hmax⟩ := henc
+  cases p' with
+  | none =>
+    simp only [PendOk] at hp
+    subst hp
+    obtain ⟨is1, hg, htr⟩ := end_sequence_correct m en format addrSize st'.prog.enc base st'.prog.prevRow
+      st'.prog.row off hmin hmax hasz hend
+    refine ⟨is1, ?_, htr⟩
+    simp only [applyEv, Prog.endSequence, hg, ofWrite, Out.bind_ok, Out.pure_eq, CRes.bind_ok, CRes.pure_eq]
+  | some a =>
+    obtain ⟨ha, hlo, hlt⟩ := hp
+    subst ha
+    obtain ⟨is1, hg, htr⟩ := end_sequence_correct m en format addrSize st'.prog.enc a
+      (prevAfter (some a) st'.prog.prevRow) st'.prog.row off hmin hmax hasz hend
+    refine ⟨WInstr.setAddress (some a) :: is1, ?_, ?_⟩
+    · simp only [applyEv, Prog.endSequence, Prog.setAddress, prevAfter] at hg ⊢
+      simp only [hg, ofWrite, Out.bind_ok, Out.pure_eq, CRes.bind_ok, CRes.pure_eq, List.append_assoc,
+        List.cons_append, List.nil_append]
+    · intro inSeq rest
+      obtain ⟨_, _, _, _, hs⟩ := set_address_correct en format addrSize st'.prog wbase a inSeq
+        (is1.map (WInstr.toInstr st'.prog.enc.version) ++ rest) hlo hlt
+      simp only [List.map_cons, List.cons_append]
+      rw [hs]
+      exact htr inSeq rest
+
+/-- the source header's parameters, the encoding of the program being built, and the address size
+of the reader that reads the result agree (the converter copies them) -/
+def Agree (h : Params) (addrSize : Nat) (e : Enc) : Prop :=
+  h.addrSize = addrSize ∧ h.minInstLen = e.minInstLen ∧ h.maxOps = e.maxOps ∧
+  h.defaultIsStmt = e.defaultIsStmt
+
+/-- the writer's state and the registers `Rout` of a reader of its output, between two events;
+`Rlast` is the last source row, `wbase` the base address of the writer's current segment -/
+def WInv (h : Params) (st : CSt) (Rlast : Row) (wbase : Nat) (Rout : Row) : Prop :=
+  Rout = rowOf st.prog.enc.version wbase st.prog.prevRow ∧
+  st.prog.prevRow.cleared = st.prog.prevRow ∧ st.prog.prevRow.opIndex = 0 ∧ st.prog.row.opIndex = 0 ∧
+  st.prog.prevRow.line < 2 ^ 63 ∧ st.prog.prevRow.addressOffset % st.prog.enc.minInstLen = 0 ∧
+  wbase + st.prog.prevRow.addressOffset ≤ (reset h Rlast).address ∧
+  wbase = (if Rlast.endSequence then 0 else st.fromAddress)
+
+theorem rowNew_agree (h : Params) (en : Endian) (format : Format) (addrSize : Nat) (e : Enc)
+    (ha : Agree h addrSize e) : Row.new (readerParams en format addrSize e) = Row.new h := by
+  simp [Row.new, readerParams, ha.2.2.2]
+
+theorem convLoop_sim (m : Mode) (en : Endian) (format : Format) (addrSize : Nat) (strs : Strs) (h : Params)
+    (hm : h.maxOps = 1) (hasz : addrSize = 1 ∨ addrSize = 2 ∨ addrSize = 4 ∨ addrSize = 8) :
+    ∀ (fuel : Nat) (is : List Instr) (st stf : CSt) (Rlast : Row) (bin : Bool) (wbase : Nat) (Rout : Row),
+    is.length < fuel → convLoop m strs h fuel st is = .ok stf →
+    Agree h addrSize st.prog.enc → EncOk st.prog.enc → st.prog.enc.version ≤ 5 →
+    RowRel h st Rlast → Tame h (reset h Rlast) is → WInv h st Rlast wbase Rout →
+    ∃ new more, stf.prog.instrs = st.prog.instrs ++ new ∧ stf.files = st.files ++ more ∧
+      stf.prog.enc = st.prog.enc ∧
+      ∀ bout, (traceInstrs (readerParams en format addrSize st.prog.enc) Rout bout
+          (new.map (WInstr.toInstr st.prog.enc.version))).map obsOut =
+        (traceInstrs h (reset h Rlast) bin is).map
+          (obsIn (fun i => fileRaw st.prog.enc.version (stf.files.getD i 0))) := by
+  intro fuel
+  induction fuel with
+  | zero => intro is _ _ _ _ _ _ hf; omega
+  | succ fuel ih =>
+    intro is st stf Rlast bin wbase Rout hfuel hconv hag henc hv hrel htame hw
+    rw [convLoop] at hconv
+    unfold readRow at hconv
+    -- read_row's prologue
+    have hrel0 := RowRel_reset h st Rlast hrel
+    obtain ⟨hRout, hcl, hpop, hrop, hpline, hpal, hlo, hwb⟩ := hw
+    have hminEq : st.prog.enc.minInstLen = h.minInstLen := hag.2.1.symm
+    have hspec := readRowLoop_sim strs h hm is none
+      { st with fromAddress := if st.fromRow.endSequence then 0 else st.fromAddress,
+                fromRow := reset h st.fromRow }
+      (reset h Rlast) bin (wbase + st.prog.prevRow.addressOffset) hrel0 htame hlo
+      (by intro a ha; cases ha) hminEq
+    generalize hst0 : ({ st with fromAddress := if st.fromRow.endSequence then 0 else st.fromAddress,
+                                 fromRow := reset h st.fromRow } : CSt) = st0 at hconv hspec hrel0
+    have e_prog : st0.prog = st.prog := by rw [← hst0]
+    have e_files : st0.files = st.files := by rw [← hst0]
+    have e_fa : st0.fromAddress = (if st.fromRow.endSequence then 0 else st.fromAddress) := by rw [← hst0]
+    have hendEq : Rlast.endSequence = st.fromRow.endSequence := by rw [hrel.2.1]; rfl
+    have hsz8 : addrSize ≤ 8 := by omega
+    have hones64 := onesSized_lt addrSize hsz8
+    cases hres : readRowLoop strs h false none st0 is with
+    | err e => rw [hres] at hconv; simp at hconv
+    | panic w => rw [hres] at hconv; simp at hconv
+    | ok v =>
+      obtain ⟨ev, st', rest⟩ := v
+      rw [hres] at hconv hspec
+      cases ev with
+      | none =>
+        simp only [CRes.ok.injEq] at hconv
+        subst hconv
+        simp only [RowSpec] at hspec
+        obtain ⟨htr, hfr⟩ := hspec
+        obtain ⟨f1, _, _, _, f5, more, f6⟩ := hfr
+        refine ⟨[], more, by rw [f1, e_prog]; simp, by rw [f6, e_files], by rw [f5, e_prog], fun bout => ?_⟩
+        rw [htr]; simp [traceInstrs]
+      | some ev =>
+        have hcons : rest.length < is.length := by
+          cases ev with
+          | row a r => exact Gimli.Props.C12.line_read_row_consumes strs h is false none st0 st' _ rest hres
+          | endSeq a o => exact Gimli.Props.C12.line_read_row_consumes strs h is false none st0 st' _ rest hres
+        cases ev with
+        | row p' w =>
+          simp only [RowSpec] at hspec
+          obtain ⟨R1, htrIn, hR1end, hrel1, htame1, hline1, hlo1, hcr, hfr, hp', hpn⟩ := hspec
+          obtain ⟨f1, f2, f3, f4, f5, more1, f6⟩ := hfr
+          have henc' : st'.prog.enc = st.prog.enc := by rw [f5, e_prog]
+          have hprev' : st'.prog.prevRow = st.prog.prevRow := by rw [f2, e_prog]
+          obtain ⟨hrow, hwoff, hwop, hwline, hwal, hfile⟩ := rowOf_convertRow h st' R1 w hrel1 hR1end hcr
+          have hR1addr : R1.address = st'.fromRow.address + st'.fromAddress := by rw [hrel1.2.1]; rfl
+          have hR1ones : R1.address ≤ onesSized addrSize := by rw [← hag.1]; exact hrel1.2.2.2
+          have hmax1 : st'.prog.enc.maxOps = 1 := by rw [henc', ← hag.2.2.1]; exact hm
+          -- the writer's step
+          have hpcond : PendOk p' st'.fromAddress wbase st'.prog.prevRow.addressOffset (minTombstone addrSize) := by
+            cases p' with
+            | some a =>
+              obtain ⟨a1, a2, a3⟩ := hp' a rfl
+              exact ⟨a1, by rw [hprev']; exact a2, by rw [← hag.1]; exact a3⟩
+            | none =>
+              obtain ⟨_, a2⟩ := hpn rfl
+              show st'.fromAddress = wbase
+              rw [a2, e_fa, hwb, hendEq]
+          have hstep : StepOk st'.prog.enc addrSize st'.fromAddress (prevAfter p' st'.prog.prevRow) w := by
+            have hdiv : (w.addressOffset - (prevAfter p' st'.prog.prevRow).addressOffset) / st'.prog.enc.minInstLen ≤
+                w.addressOffset := Nat.le_trans (Nat.div_le_self _ _) (Nat.sub_le _ _)
+            cases p' with
+            | some a =>
+              simp only [prevAfter]
+              refine ⟨by simp, by rw [hwoff]; exact hwal, by rw [hmax1]; exact Nat.zero_lt_one, by rw [hmax1, hwop]; exact Nat.zero_lt_one,
+                Nat.zero_le _, fun _ => Nat.zero_le _, ?_, by rw [hprev']; exact hpline, by rw [hwline]; exact hline1, ?_⟩
+              · rw [hmax1, hwop]; simp only [prevAfter] at hdiv
+                simp only [Nat.mul_one, Nat.add_zero]
+                exact Nat.lt_of_le_of_lt hdiv (by rw [hwoff]; omega)
+              · rw [hwoff]; omega
+            | none =>
+              simp only [prevAfter] at hdiv ⊢
+              have hb : st'.fromAddress = wbase := hpcond
+              refine ⟨by rw [hprev', henc']; exact hpal, by rw [hwoff]; exact hwal, by rw [hmax1, hprev', hpop]; exact Nat.zero_lt_one,
+                by rw [hmax1, hwop]; exact Nat.zero_lt_one, ?_, fun _ => by rw [hprev', hpop]; exact Nat.zero_le _, ?_,
+                by rw [hprev']; exact hpline, by rw [hwline]; exact hline1, ?_⟩
+              · rw [hprev', hwoff]; omega
+              · rw [hmax1, hwop]
+                simp only [Nat.mul_one, Nat.add_zero]
+                exact Nat.lt_of_le_of_lt hdiv (by rw [hwoff]; omega)
+              · rw [hwoff]; omega
+          obtain ⟨is1, happ, htr1⟩ := applyEv_row_sim m en format addrSize st' p' w wbase st'.fromAddress
+            (by rw [henc']; exact henc) hasz (by rw [hprev']; exact hcl) hpcond hstep
+          dsimp only at hconv
+          rw [happ] at hconv
+          dsimp only at hconv
+          -- the rest of the program
+          obtain ⟨new2, more2, g1, g2, g3, g4⟩ := ih rest _ stf R1 true st'.fromAddress
+            (rowOf st'.prog.enc.version st'.fromAddress w.cleared) (by omega) hconv
+            (by show Agree h addrSize st'.prog.enc; rw [henc']; exact hag)
+            (by show EncOk st'.prog.enc; rw [henc']; exact henc)
+            (by show st'.prog.enc.version ≤ 5; rw [henc']; exact hv)
+            hrel1 htame1
+            ⟨rfl, rfl, hwop, hwop, by show w.line < 2 ^ 63; rw [hwline]; exact hline1,
+              by show w.addressOffset % st'.prog.enc.minInstLen = 0; rw [hwoff]; exact hwal,
+              by rw [reset_address, hR1end]; simp only [Bool.false_eq_true, ↓reduceIte]
+                 show st'.fromAddress + w.addressOffset ≤ R1.address; rw [hwoff]; omega,
+              by rw [hR1end]; rfl⟩
+          dsimp only at g1 g2 g3 g4
+          refine ⟨is1 ++ new2, more1 ++ more2, ?_, ?_, ?_, fun bout => ?_⟩
+          · rw [g1, f1, e_prog]; simp
+          · rw [g2, f6, e_files]; simp
+          · rw [g3]; exact henc'
+          · rw [htrIn, hRout]
+            have h1 := htr1 bout (new2.map (WInstr.toInstr st'.prog.enc.version))
+            have h2 := g4 true
+            rw [henc'] at h1 h2 hrow
+            rw [hprev'] at h1
+            rw [List.map_append, h1]
+            simp only [List.map_cons]
+            congr 1
+            · have hfd : stf.files.getD R1.file 0 = st'.files.getD R1.file 0 := by
+                rw [g2]
+                simp [List.getD, List.getElem?_append_left hfile]
+              simp only [obsOut, obsIn, hR1end, hfd]
+              rw [hrow]
+              simp [hR1end]
+        | endSeq p' off =>
+          simp only [RowSpec] at hspec
+          obtain ⟨R1, htrIn, hR1end, hrel1, htame1, hlo1, hoff, hal, hfr, hp', hpn⟩ := hspec
+          obtain ⟨f1, f2, f3, f4, f5, more1, f6⟩ := hfr
+          have henc' : st'.prog.enc = st.prog.enc := by rw [f5, e_prog]
+          have hprev' : st'.prog.prevRow = st.prog.prevRow := by rw [f2, e_prog]
+          have hrow' : st'.prog.row = st.prog.row := by rw [f3, e_prog]
+          have hR1addr : R1.address = st'.fromRow.address + st'.fromAddress := by rw [hrel1.2.1]; rfl
+          have hR1ones : R1.address ≤ onesSized addrSize := by rw [← hag.1]; exact hrel1.2.2.2
+          have hmax1 : st'.prog.enc.maxOps = 1 := by rw [henc', ← hag.2.2.1]; exact hm
+          have hminE : st'.prog.enc.minInstLen = h.minInstLen := by rw [henc']; exact hminEq
+          have hpcond : PendOk p' st'.fromAddress wbase st'.prog.prevRow.addressOffset (minTombstone addrSize) := by
+            cases p' with
+            | some a =>
+              obtain ⟨a1, a2, a3⟩ := hp' a rfl
+              exact ⟨a1, by rw [hprev']; exact a2, by rw [← hag.1]; exact a3⟩
+            | none =>
+              obtain ⟨_, a2⟩ := hpn rfl
+              show st'.fromAddress = wbase
+              rw [a2, e_fa, hwb, hendEq]
+          have hendok : EndOk st'.prog.enc addrSize st'.fromAddress (prevAfter p' st'.prog.prevRow) st'.prog.row off := by
+            have hdiv : (off - (prevAfter p' st'.prog.prevRow).addressOffset) / st'.prog.enc.minInstLen ≤ off :=
+              Nat.le_trans (Nat.div_le_self _ _) (Nat.sub_le _ _)
+            cases p' with
+            | some a =>
+              simp only [prevAfter] at hdiv ⊢
+              refine ⟨by simp, by rw [hminE]; exact hal, by rw [hmax1]; exact Nat.zero_lt_one,
+                by rw [hmax1, hrow', hrop]; exact Nat.zero_lt_one, Nat.zero_le _, fun _ => Nat.zero_le _, ?_, ?_⟩
+              · rw [hmax1, hrow', hrop]
+                simp only [Nat.mul_one, Nat.add_zero]
+                exact Nat.lt_of_le_of_lt hdiv (by omega)
+              · omega
+            | none =>
+              simp only [prevAfter] at hdiv ⊢
+              have hb : st'.fromAddress = wbase := hpcond
+              refine ⟨by rw [hprev', henc']; exact hpal, by rw [hminE]; exact hal,
+                by rw [hmax1, hprev', hpop]; exact Nat.zero_lt_one,
+                by rw [hmax1, hrow', hrop]; exact Nat.zero_lt_one, ?_,
+                fun _ => by rw [hprev', hpop]; exact Nat.zero_le _, ?_, ?_⟩
+              · rw [hprev']; omega
+              · rw [hmax1, hrow', hrop]
+                simp only [Nat.mul_one, Nat.add_zero]
+                exact Nat.lt_of_le_of_lt hdiv (by omega)
+              · omega
+          obtain ⟨is1, happ, htr1⟩ := applyEv_end_sim m en format addrSize st' p' off wbase st'.fromAddress
+            (by rw [henc']; exact henc) hasz hpcond hendok
+          dsimp only at hconv
+          rw [happ] at hconv
+          dsimp only at hconv
+          have hres1 : reset h R1 = Row.new h := by unfold reset; rw [hR1end]; rfl
+          obtain ⟨new2, more2, g1, g2, g3, g4⟩ := ih rest _ stf R1 false 0
+            (Row.new (readerParams en format addrSize st'.prog.enc)) (by omega) hconv
+            (by show Agree h addrSize st'.prog.enc; rw [henc']; exact hag)
+            (by show EncOk st'.prog.enc; rw [henc']; exact henc)
+            (by show st'.prog.enc.version ≤ 5; rw [henc']; exact hv)
+            hrel1 (by rw [hres1]; exact htame1)
+            ⟨(rowOf_initial en format addrSize st'.prog.enc (by rw [henc']; exact hv)).symm, rfl, rfl, rfl,
+              by show (1 : Nat) < 2 ^ 63; decide, Nat.zero_mod _, Nat.zero_le _, by rw [hR1end]; rfl⟩
+          dsimp only at g1 g2 g3 g4
+          refine ⟨is1 ++ new2, more1 ++ more2, ?_, ?_, ?_, fun bout => ?_⟩
+          · rw [g1, f1, e_prog]; simp
+          · rw [g2, f6, e_files]; simp
+          · rw [g3]; exact henc'
+          · rw [htrIn, hRout]
+            have h1 := htr1 bout (new2.map (WInstr.toInstr st'.prog.enc.version))
+            have h2 := g4 false
+            rw [hres1] at h2
+            rw [henc'] at h1 h2
+            rw [hprev'] at h1
+            rw [List.map_append, h1]
+            simp only [List.map_cons]
+            congr 1
+            simp only [obsOut, obsIn, hR1end, ↓reduceIte]
+            congr 1
+            omega
 end Gimli.ConvLineRows
